@@ -18,6 +18,9 @@ pub struct FileSpec {
     pub enc: String,
     /// "good", "badutf8", "missing", "badutf16"
     pub kind: String,
+    /// in the batch the file is a symbolic link to a regular file outside the batch directory
+    #[serde(default)]
+    pub link: bool,
 }
 
 #[derive(Serialize, Deserialize, Clone, Debug)]
@@ -28,6 +31,9 @@ pub struct Scn {
     /// "files" or "stdout"
     pub mode: String,
     pub reverse_order: bool,
+    /// the batch is given as one directory argument instead of a list of files
+    #[serde(default)]
+    pub via_dir: bool,
 }
 
 fn bytes_of(f: &FileSpec) -> Vec<u8> {
@@ -67,7 +73,7 @@ impl Prop for C18Prop {
         "C18"
     }
     fn rule(&self) -> String {
-        "Streams (proptest tapes): batch = multisets of 2-60 files (repository seed programs repeated 1-300 times: 0 B .. ~300 kB, already formatted or not, duplicates, UTF-8 with and without BOM, UTF-16LE/BE with BOM) x RAYON_NUM_THREADS in {1,2,3,4,8,16,32} x path order x seeded per-file jitter (hook H2) x failing subsets (invalid UTF-8, malformed UTF-16, missing path) x mode {files, stdout} x generated configuration. Oracle: every good file's bytes after one batch invocation equal the bytes produced by a separate single-file invocation on a copy (which in turn must equal the library model); failing files are untouched and make the exit status non-zero, which it is only then; in stdout mode the batch output is a sequence of complete per-file records, each identical to the record of the file formatted alone. Non-trivial = at least 3 files of different lengths handled by fewer threads than files, or a failing file among good ones; distinct by hash of the scenario."
+        "Streams (proptest tapes): batch = multisets of 2-60 files (repository seed programs repeated 1-300 times: 0 B .. ~300 kB, already formatted or not, duplicates, UTF-8 with and without BOM, UTF-16LE/BE with BOM) x RAYON_NUM_THREADS in {1,2,3,4,8,16,32} x path order x seeded per-file jitter (hook H2) x failing subsets (invalid UTF-8, malformed UTF-16, missing path) x path form {list of files, one directory argument} x some files being symbolic links to regular files outside the directory x mode {files, stdout} x generated configuration. Oracle: every good file's bytes after one batch invocation equal the bytes produced by a separate single-file invocation on a copy (which in turn must equal the library model); failing files are untouched and make the exit status non-zero, which it is only then; in stdout mode the batch output is a sequence of complete per-file records, each identical to the record of the file formatted alone. Non-trivial = at least 3 files of different lengths handled by fewer threads than files, or a failing file among good ones; distinct by hash of the scenario."
             .into()
     }
     fn assumptions(&self) -> Vec<String> {
@@ -95,15 +101,16 @@ impl Prop for C18Prop {
                     text.push_str(unit);
                     text.push_str("\n\n");
                 }
-                files.push(FileSpec { name: format!("r{i:03}.pas"), text, enc: "utf8".into(), kind: "good".into() });
+                files.push(FileSpec { name: format!("r{i:03}.pas"), text, enc: "utf8".into(), kind: "good".into(), link: false });
             }
-            let scn = Scn { files, threads: *t.pick(&[16, 8, 32, 4]), jitter: format!("j{}", t.below(1000)), mode: "stdout".into(), reverse_order: t.chance(1, 2) };
+            let scn = Scn { files, threads: *t.pick(&[16, 8, 32, 4]), jitter: format!("j{}", t.below(1000)), mode: "stdout".into(), reverse_order: t.chance(1, 2), via_dir: false };
             let mut c = Case::text("stdoutrace", String::new(), cfg);
             c.extra = serde_json::to_value(scn).unwrap();
             return Some(c);
         }
         let cfg = Cfg::gen_unsaturated(t);
         let all = crate::gen::seeds::texts();
+        let via_dir = t.chance(1, 3);
         let many = t.chance(1, 4);
         let n = 2 + t.below(if many { 59 } else { 14 });
         let mut files = vec![];
@@ -141,13 +148,18 @@ impl Prop for C18Prop {
             } else {
                 format!("f{i:03}.{}", *t.pick(&["pas", "dpr", "pas"]))
             };
-            files.push(FileSpec { name, text, enc, kind });
+            // a directory cannot name a file that is not there
+            let kind = if via_dir && kind == "missing" { "good".to_string() } else { kind };
+            let link = kind == "good" && t.chance(1, 8);
+            files.push(FileSpec { name, text, enc, kind, link });
         }
         // an even number of failing files now and then (exit status must still be non-zero)
         if t.chance(1, 4) {
             let k = 2 * (1 + t.below(2)) as usize;
             for j in 0..k {
-                files.push(FileSpec { name: format!("bad{j}.pas"), text: "x := 1;\n".into(), enc: "utf8".into(), kind: (*t.pick(&["badutf8", "missing", "badutf16"])).to_string() });
+                let kind = (*t.pick(&["badutf8", "missing", "badutf16"])).to_string();
+                let kind = if via_dir && kind == "missing" { "badutf8".to_string() } else { kind };
+                files.push(FileSpec { name: format!("bad{j}.pas"), text: "x := 1;\n".into(), enc: "utf8".into(), kind, link: false });
             }
             for f in files.iter_mut() {
                 if !f.name.starts_with("bad") {
@@ -161,6 +173,7 @@ impl Prop for C18Prop {
             jitter: format!("j{}", t.below(1000)),
             mode: (*t.pick(&["files", "files", "stdout"])).to_string(),
             reverse_order: t.chance(1, 2),
+            via_dir,
         };
         let mut c = Case::text("batch", String::new(), cfg);
         c.extra = serde_json::to_value(scn).unwrap();
@@ -183,6 +196,9 @@ impl Prop for C18Prop {
             )
         };
         let sc = Scratch::new();
+        for d in ["one/batch", "b/batch", "alone"] {
+            let _ = std::fs::create_dir_all(sc.path(d));
+        }
         // alone: each file in its own invocation, in its own directory copy
         let mut alone: Vec<Option<Vec<u8>>> = vec![];
         let mut alone_records: Vec<(String, String)> = vec![];
@@ -223,8 +239,17 @@ impl Prop for C18Prop {
         // batch
         for f in &scn.files {
             if f.kind != "missing" {
-                let p = sc.write(&format!("b/batch/{}", f.name), &bytes_of(f));
-                cli::age(&p);
+                if f.link {
+                    let target = sc.write(&format!("b/shared/{}", f.name), &bytes_of(f));
+                    cli::age(&target);
+                    let _ = std::fs::create_dir_all(sc.path("b/batch"));
+                    if std::os::unix::fs::symlink(format!("../shared/{}", f.name), sc.path(&format!("b/batch/{}", f.name))).is_err() {
+                        return Outcome::Discard("cannot-create-symlink");
+                    }
+                } else {
+                    let p = sc.write(&format!("b/batch/{}", f.name), &bytes_of(f));
+                    cli::age(&p);
+                }
             }
         }
         let mut names: Vec<String> = scn.files.iter().map(|f| format!("batch/{}", f.name)).collect();
@@ -235,7 +260,11 @@ impl Prop for C18Prop {
         if scn.mode == "stdout" {
             a.push("--mode=stdout".into());
         }
-        a.extend(names);
+        if scn.via_dir {
+            a.push("batch".into());
+        } else {
+            a.extend(names);
+        }
         let env = [("RAYON_NUM_THREADS", scn.threads.to_string()), ("PASFMT_VERIF_JITTER", scn.jitter.clone())];
         let r = cli::run_pasfmt(&a, &sc.path("b"), None, &env);
         let any_fail = scn.files.iter().any(|f| f.kind != "good");
